@@ -340,6 +340,9 @@ func runC09(t *sim.T, tier string) *sim.Violation {
 					t.Probe("bad-row-last")
 				}
 				desc := fmt.Sprintf("insert into %s at data row %d: %s %q", inj.file, pos+1, inj.cause, inj.row)
+				if n%97 == 1 && n < 700 {
+					t.Logf("e.g. %s", desc) // a few of the enumerated insertions, for the evidence sample
+				}
 				if v := check([]placed{{inj, pos}}, desc); v != nil {
 					t.Logf("%s", desc)
 					return v
